@@ -40,4 +40,73 @@ def banRun (regTags regFilters : List Bytes) : BanState → List BanOp → BanSt
     let rr := banRun regTags regFilters r.1 rest
     (rr.1, r.2 :: rr.2)
 
+
+/-! ### the template cache (`FromCache`, `CleanCache`, `Debug`) -/
+
+structure CacheState where
+  cache   : List (Bytes × Nat) := []      -- templateCache: resolved name ↦ template identity
+  debug   : Bool := false
+  files   : List (Bytes × Bytes) := []    -- what the loader serves (mutable: "the file's content changed")
+  nextId  : Nat := 0                      -- identities of templates created so far
+  fetches : List Bytes := []              -- every loader Get, in order
+  deriving DecidableEq, Repr
+
+inductive CacheOp
+  | fromCache (n : Bytes)
+  | cleanAll
+  | clean (ns : List Bytes)
+  | setDebug (b : Bool)
+  | setFile (n : Bytes) (content : Option Bytes)     -- none = delete
+  deriving DecidableEq, Repr
+
+/-- outcome of one call: the template identity returned, or an error -/
+inductive CacheRes
+  | tpl (id : Nat)
+  | err
+  | unit
+  deriving DecidableEq, Repr
+
+/-- does this content compile?  (the harness uses the marker `{% if %}` for a
+    file that fails to compile) -/
+def compiles (content : Bytes) : Bool := !(Bytes.contains content b!"{% if %}")
+
+/-- `set.FromFile(name)`: one fetch; a fresh template identity on success -/
+def loadFile (s : CacheState) (name : Bytes) : CacheState × Option Nat :=
+  let key := Path.abs [] name
+  let s1 := { s with fetches := s.fetches ++ [key] }
+  match s.files.lookup key with
+  | none => (s1, none)
+  | some c => if compiles c then ({ s1 with nextId := s1.nextId + 1 }, some s1.nextId) else (s1, none)
+
+def cacheStep (s : CacheState) : CacheOp → CacheState × CacheRes
+  | .fromCache n =>
+    if s.debug then
+      match loadFile s n with
+      | (s', some id) => (s', .tpl id)
+      | (s', none) => (s', .err)
+    else
+      let key := Path.abs [] n
+      match s.cache.lookup key with
+      | some id => (s, .tpl id)
+      | none =>
+        match loadFile s key with
+        | (s', some id) => ({ s' with cache := s'.cache ++ [(key, id)] }, .tpl id)
+        | (s', none) => (s', .err)
+  | .cleanAll => ({ s with cache := [] }, .unit)
+  | .clean ns =>
+    if ns = [] then ({ s with cache := [] }, .unit)
+    else ({ s with cache := s.cache.filter fun kv => !(ns.map (Path.abs [])).elem kv.1 }, .unit)
+  | .setDebug b => ({ s with debug := b }, .unit)
+  | .setFile n c =>
+    let key := Path.abs [] n
+    let fs := s.files.filter (·.1 != key)
+    ({ s with files := match c with | some c => fs ++ [(key, c)] | none => fs }, .unit)
+
+def cacheRun : CacheState → List CacheOp → CacheState × List CacheRes
+  | s, [] => (s, [])
+  | s, op :: rest =>
+    let r := cacheStep s op
+    let rr := cacheRun r.1 rest
+    (rr.1, r.2 :: rr.2)
+
 end Pongo
